@@ -696,21 +696,40 @@ def r_byteclass(P, chk):
     chk.floor(rid, len(sites), 5, "ctype call sites")
     # label_from_string keeps multi-byte sequences together and only case-maps ASCII
     lf = P.func("label_from_string", "writer.c")
-    loops = [w for w in lf.walk() if w["k"] in ("WhileStmt", "IfStmt") and "&192)==128" in key(w["c"][0]).replace(" ", "")]
+
+    def is_cont_test(e):
+        """Is e the continuation-byte test - `(x & 0xC0) == 0x80` written inline, or a call of a one-argument predicate
+        helper that is true exactly for 0x80..0xBF (decided per byte value by EDPE)?"""
+        e = strip(e)
+        if e is None:
+            return False
+        k = key(e).replace(" ", "")
+        if re.match(r"^\(\(?\*?\w+(\[\w+\])?\)?&192\)==128$", k.strip("()") + "") or re.match(r"^\(\(\*\w+&192\)==128\)$", k):
+            return True
+        if e["k"] == "CallExpr" and len(e["c"]) == 2:
+            h = P.resolve(lf, e.get("callee") or "")
+            if h is not None and P.first_party(h):
+                t = byte_pred_table(P, h)
+                return t is not None and all(t[v] == (0x80 <= v <= 0xBF) for v in range(256))
+        return False
+    loops = [w for w in lf.walk() if w["k"] in ("WhileStmt", "IfStmt") and
+             ("&192)==128" in key(w["c"][0]).replace(" ", "") or any(is_cont_test(y) for y in walk(w["c"][0]) if y["k"] == "CallExpr"))]
     # the copying loop runs for as long as continuation bytes follow: no other conjunct may end it earlier
     for w in loops:
         if w["k"] == "WhileStmt":
-            ck = key(w["c"][0]).replace(" ", "")
-            exact = bool(re.match(r"^\(\(\*\w+&192\)==128\)$", ck))
+            exact = is_cont_test(w["c"][0])
             chk.obligation(rid, "label_from_string: the continuation-byte loop is bounded only by `(next & 0xC0) == 0x80`", exact)
             if not exact:
                 chk.violation(rid, "byteclass:label:loopbound", lf.where(w), "label_from_string's continuation-byte loop has an extra stop "
-                              "condition (`%s`): a long sequence (4-byte character) is cut and its tail bytes dropped" % ck[:60])
+                              "condition (`%s`): a long sequence (4-byte character) is cut and its tail bytes dropped" % key(w["c"][0])[:60])
     app_plain = False
     for w in loops:
         for x in walk(w["c"][1]):
-            if x["k"] == "CallExpr" and x.get("callee") == "d_string_append_c" and key(x["c"][2]) in ("*str",):
-                app_plain = True
+            if x["k"] == "CallExpr" and x.get("callee") == "d_string_append_c":
+                a = strip(x["c"][2])
+                # the byte itself, unclassified: a dereference of a char pointer
+                if a is not None and a["k"] == "UnaryOperator" and a["op"] == "*" and "char" in ((strip(a["c"][0]) or {}).get("t") or ""):
+                    app_plain = True
     chk.obligation(rid, "label_from_string copies lead + continuation bytes ((b & 0xC0) == 0x80) without classification", bool(loops) and app_plain)
     if not (loops and app_plain):
         chk.violation(rid, "byteclass:label:continuation", lf.where(), "label_from_string no longer keeps continuation bytes "
@@ -719,10 +738,85 @@ def r_byteclass(P, chk):
     for c in lf.calls("tolower"):
         iv = ub.interval_at(c["c"][1], at=c)
         ok = iv is not None and 0 <= iv[0] and iv[1] <= 127
+        if not ok:
+            # guarded by a predicate helper that only accepts ASCII bytes
+            ak = key(c["c"][1])
+            cur = c
+            for a in lf.ancestors(c):
+                if a["k"] == "IfStmt" and a["c"][1] is not None and any(x is cur for x in walk(a["c"][1])):
+                    for y in walk(a["c"][0]):
+                        if y["k"] == "CallExpr" and len(y["c"]) == 2 and key(y["c"][1]) == ak:
+                            h = P.resolve(lf, y.get("callee") or "")
+                            t = byte_pred_table(P, h) if h is not None and P.first_party(h) else None
+                            if t is not None and not any(t[v] for v in range(128, 256)) and strip(a["c"][0]) is strip(y):
+                                ok = True
+                                iv = "guarded by %s(), true for ASCII bytes only" % h.name
+                cur = a
         chk.obligation(rid, "%s label_from_string: tolower() only sees ASCII (derived range %s)" % (lf.where(c), iv), ok)
         if not ok:
             chk.violation(rid, "byteclass:label:tolower", lf.where(c), "label_from_string applies tolower() to a byte that is not "
                           "range-checked as ASCII (range %s)" % (iv,))
+
+
+def byte_pred_table(P, h):
+    """[bool]*256 for a pure one-argument predicate over a char (`static bool is_x(char c) { ... }`), by EDPE over the
+    256 byte values (plain char taken as signed, as on the build target); None if some return value cannot be decided."""
+    from .prog import edpe_blocks, _cmp_decide, _eval_num
+    if len(h.params) != 1 or h.params[0][1].replace("const ", "").strip() not in ("char", "unsigned char", "int"):
+        return None
+    if any(c.get("callee") for c in h.calls()):
+        return None
+    cache = getattr(P, "_bpt", None)
+    if cache is None:
+        cache = P._bpt = {}
+    if P.fid(h) in cache:
+        return cache[P.fid(h)]
+    pn = h.params[0][0]
+    unsigned = "unsigned" in h.params[0][1]
+    out = []
+    pos = h.cfg.positions()
+    for v in range(256):
+        sv = v if (v < 128 or unsigned) else v - 256
+        blocks = edpe_blocks(h, pn, sv)
+        vals = set()
+        for r in h.walk():
+            if r["k"] != "ReturnStmt" or not r.get("c") or r["c"][0] is None:
+                continue
+            z = r
+            if z.get("i") not in pos:
+                z = next((y for y in walk(r) if y.get("i") in pos), None)
+            if z is None or pos[z["i"]][0] not in blocks:
+                continue
+            e = strip(r["c"][0])
+            cv = const_value(e)
+            if cv is not None:
+                vals.add(bool(cv))
+                continue
+
+            def ev(t, depth=0):
+                t = strip(t)
+                if t is None or depth > 8:
+                    return None
+                if t["k"] == "UnaryOperator" and t["op"] == "!":
+                    x = ev(t["c"][0], depth + 1)
+                    return None if x is None else not x
+                if t["k"] == "BinaryOperator" and t["op"] in ("&&", "||"):
+                    x, y = ev(t["c"][0], depth + 1), ev(t["c"][1], depth + 1)
+                    if t["op"] == "&&":
+                        return False if (x is False or y is False) else (True if (x and y) else None)
+                    return True if (x is True or y is True) else (False if (x is False and y is False) else None)
+                d = _cmp_decide(t, {pn}, sv)
+                if d is not None:
+                    return d
+                n2 = _eval_num(t, {pn}, sv)
+                return None if n2 is None else bool(n2)
+            vals.add(ev(e))
+        if len(vals) != 1 or None in vals:
+            cache[P.fid(h)] = None
+            return None
+        out.append(vals.pop())
+    cache[P.fid(h)] = out
+    return out
 
 
 # ---------------------------------------------------------------------------
@@ -861,6 +955,8 @@ def r_highbyte(P, chk):
         t = (e.get("t") or "").replace("const ", "").strip()
         if e["k"] == "ArraySubscriptExpr" or (e["k"] == "UnaryOperator" and e["op"] == "*"):
             return t in ("char", "unsigned char", "signed char")
+        if e["k"] == "DeclRefExpr" and e.get("dk") in ("Parm", "Var"):
+            return t in ("char", "unsigned char", "signed char")      # a byte handed to a predicate helper
         return False
     for f in P.all_funcs:
         if not P.first_party(f) or f.unit.base in compdb.GENERATED_UNITS or f.unit.base in ("miniz.c", "argtable3.c"):
